@@ -242,6 +242,9 @@ func genSpecFor(p *packages.Package, pc *PkgContracts) (string, error) {
 		if ls.Decreases != nil {
 			texts = append(texts, ls.Decreases.Text)
 		}
+		for _, c := range ls.Modifies {
+			texts = append(texts, c.Text)
+		}
 		for _, t := range texts {
 			toks, _ := scanSpec(t)
 			for _, tk := range toks {
